@@ -756,7 +756,7 @@ def fam_inheritance(r, n):
 def fam_hostile(r, n):
     """Objects of the checked module that misbehave under introspection, annotations that raise,
     deep nesting: the error / catch-all paths of the checker."""
-    lines = ["from typing import Any, List", ""]
+    lines = ["from typing import Any, Dict, List", ""]
     kind = r.below(6)
     if kind == 0:
         what = r.choice(["__repr__", "__eq__", "__hash__", "__bool__", "__getattr__", "__len__"])
@@ -774,11 +774,11 @@ def fam_hostile(r, n):
         # an expression nested deeper than the interpreter's recursion limit allows the checker to
         # follow: RecursionError is raised (and caught as internal_error) at whatever point the
         # stack happens to run out - inside protocol checks, overload resolution, ...
-        terms = r.randint(260, 460)
-        conv = r.choice(["int", "float", "len", "str", "bytes", "abs"])
+        terms = r.randint(300, 460)
+        conv = r.choice(["int", "float", "int", "bytes", "memoryview", "complex"])
         lines += ["# exhausts the recursion limit; where the checker gives up depends on cache warmth",
                   "VERIF_PREDECESSOR_ONLY = True",
-                  "def host_%d(rec: dict, s: str, xs: List[str]) -> None:" % n,
+                  "def host_%d(rec: Dict[str, str], s: str, xs: List[str]) -> None:" % n,
                   "    total = %s" % " + ".join("%s(rec[\"f%d\"])" % (conv, i) for i in range(terms)),
                   "    reveal_type(total)", "    flat = %s" % " or ".join("s.startswith(\"%d\")" % i for i in range(r.randint(200, 400))), "    reveal_type(flat)", ""]
     elif kind == 3:
